@@ -136,6 +136,19 @@ func c14CheckXMD(c c14XMDCase) h.Result {
 		r.Fail("h2c.ExpandMessageXMD:wrong-output", "hash=%s len=%d dstlen=%d msglen=%d first difference at byte %d: got %x want %x",
 			c.Hash, c.Len, len(c.DST), len(c.Msg), i, c14Window(out, i), c14Window(want, i))
 	}
+	// The same call with DST and message handed over as windows of ONE buffer
+	// (DST || msg || trailer): both arguments then have spare capacity that
+	// belongs to the caller.  Same output, buffer untouched.
+	wire := append(append(append([]byte(nil), c.DST...), c.Msg...), bytes.Repeat([]byte{0xc5}, 24)...)
+	orig := append([]byte(nil), wire...)
+	out2 := make([]byte, c.Len)
+	r.Eval(1)
+	if err := ExpandMessageXMD(out2, ch, wire[:len(c.DST)], wire[len(c.DST):len(c.DST)+len(c.Msg)]); err != nil || !bytes.Equal(out2, want) {
+		r.Fail("h2c.ExpandMessageXMD:wrong-output-on-shared-buffer", "hash=%s len=%d dstlen=%d msglen=%d err=%v", c.Hash, c.Len, len(c.DST), len(c.Msg), err)
+	}
+	if !bytes.Equal(wire, orig) {
+		r.Fail("h2c.ExpandMessageXMD:wrote-to-caller-buffer", "hash=%s len=%d dstlen=%d msglen=%d: the DST||msg buffer was modified", c.Hash, c.Len, len(c.DST), len(c.Msg))
+	}
 	return r.Result()
 }
 
